@@ -597,6 +597,253 @@ fn s_single_issuer(k: &dyn Kern) -> Vec<String> {
     t
 }
 
+
+/// CQEs with descriptor results normalised (`fd` for any value >= 0).
+fn cq_fd(c: &[Cqe]) -> String {
+    c.iter().map(|c| format!("(ud={},res={},flags={:#x})", c.user_data, if c.res >= 0 { "fd".to_string() } else { c.res.to_string() }, c.flags)).collect::<Vec<_>>().join(" ")
+}
+
+fn wait_cqes(r: &Raw, want: usize) -> Vec<Cqe> {
+    let mut c = r.reap();
+    for _ in 0..100 {
+        if c.len() >= want {
+            break;
+        }
+        let _ = r.enter(0, 1, ENTER_GETEVENTS, true);
+        c.extend(r.reap());
+        if c.len() < want {
+            std::thread::sleep(std::time::Duration::from_millis(1));
+        }
+    }
+    c
+}
+
+fn s_direct_alloc(k: &dyn Kern) -> Vec<String> {
+    let mut t = Vec::new();
+    let r = Raw::new(k, 4, BASE, 0).unwrap();
+    let socket = |ud: u64, file_index: u32| {
+        r.push(|s| {
+            s[0] = OP_SOCKET;
+            put32(s, 4, libc::AF_INET as u32);
+            put64(s, 8, libc::SOCK_DGRAM as u64);
+            put32(s, 44, file_index);
+            put64(s, 32, ud);
+        });
+        let e = r.enter(1, 0, 0, true);
+        r.sim_complete(Out::Default);
+        let c = wait_cqes(&r, 1);
+        (e, c)
+    };
+    let (e, c) = socket(100, FILE_INDEX_ALLOC);
+    t.push(format!("socket direct-alloc without a table -> {e} cqes: {}", cq(&c)));
+    let reg = RsrcRegister { nr: 2, flags: RSRC_REGISTER_SPARSE, ..Default::default() };
+    assert_eq!(k.register(r.fd, REGISTER_FILES2, std::ptr::from_ref(&reg).cast(), size_of::<RsrcRegister>() as u32), 0);
+    for i in 0..3u64 {
+        let (e, c) = socket(101 + i, FILE_INDEX_ALLOC);
+        t.push(format!("socket direct-alloc #{i} -> {e} cqes: {}", cq(&c)));
+    }
+    // Free slot 0, allocate again: which slot is handed out?
+    r.push(|s| {
+        s[0] = OP_CLOSE;
+        put32(s, 44, 1);
+        put64(s, 32, 110);
+    });
+    let e = r.enter(1, 1, ENTER_GETEVENTS, true);
+    t.push(format!("close direct slot 0 -> {e} cqes: {}", cq(&r.reap())));
+    let (e, c) = socket(111, FILE_INDEX_ALLOC);
+    t.push(format!("socket direct-alloc after close -> {e} cqes: {}", cq(&c)));
+    // Install slot 1 as a regular descriptor.
+    for (ud, slot, flags) in [(120u64, 1u32, SQE_FIXED_FILE), (121, 1, 0)] {
+        r.push(|s| {
+            s[0] = OP_FIXED_FD_INSTALL;
+            s[1] = flags;
+            put32(s, 4, slot);
+            put64(s, 32, ud);
+        });
+        let e = r.enter(1, 0, 0, true);
+        r.sim_complete(Out::Default);
+        let c = wait_cqes(&r, 1);
+        t.push(format!("fixed_fd_install slot {slot} sqe-flags {flags:#x} -> {e} cqes: {}", cq_fd(&c)));
+        if !k.is_sim() {
+            for c in &c {
+                if c.res >= 0 {
+                    unsafe { libc::close(c.res) };
+                }
+            }
+        }
+    }
+    // Close the same slot twice.
+    for ud in [130u64, 131] {
+        r.push(|s| {
+            s[0] = OP_CLOSE;
+            put32(s, 44, 2);
+            put64(s, 32, ud);
+        });
+        let e = r.enter(1, 1, ENTER_GETEVENTS, true);
+        t.push(format!("close direct slot 1 -> {e} cqes: {}", cq(&r.reap())));
+    }
+    r.push(|s| {
+        s[0] = OP_FIXED_FD_INSTALL;
+        s[1] = SQE_FIXED_FILE;
+        put32(s, 4, 1);
+        put64(s, 32, 132);
+    });
+    let e = r.enter(1, 0, 0, true);
+    r.sim_complete(Out::Default);
+    t.push(format!("fixed_fd_install of an empty slot -> {e} cqes: {}", cq_fd(&wait_cqes(&r, 1))));
+    t
+}
+
+fn s_pipe_direct(k: &dyn Kern) -> Vec<String> {
+    let mut t = Vec::new();
+    let r = Raw::new(k, 4, BASE, 0).unwrap();
+    let reg = RsrcRegister { nr: 3, flags: RSRC_REGISTER_SPARSE, ..Default::default() };
+    assert_eq!(k.register(r.fd, REGISTER_FILES2, std::ptr::from_ref(&reg).cast(), size_of::<RsrcRegister>() as u32), 0);
+    for ud in [140u64, 141] {
+        let mut fds = [-7i32; 2];
+        let fp = fds.as_mut_ptr() as u64;
+        r.push(|s| {
+            s[0] = OP_PIPE;
+            put64(s, 16, fp);
+            put32(s, 44, FILE_INDEX_ALLOC);
+            put64(s, 32, ud);
+        });
+        let e = r.enter(1, 0, 0, true);
+        r.sim_complete(Out::Default);
+        let c = wait_cqes(&r, 1);
+        let fds = unsafe { std::ptr::read_volatile(&fds) };
+        t.push(format!("pipe direct-alloc -> {e} cqes: {} fds={fds:?}", cq(&c)));
+    }
+    // Is the slot the failed pipe took first free again?
+    for ud in [142u64, 143] {
+        r.push(|s| {
+            s[0] = OP_SOCKET;
+            put32(s, 4, libc::AF_INET as u32);
+            put64(s, 8, libc::SOCK_DGRAM as u64);
+            put32(s, 44, FILE_INDEX_ALLOC);
+            put64(s, 32, ud);
+        });
+        let e = r.enter(1, 0, 0, true);
+        r.sim_complete(Out::Default);
+        t.push(format!("socket direct-alloc after failed pipe -> {e} cqes: {}", cq(&wait_cqes(&r, 1))));
+    }
+    // Regular pipe.
+    let mut fds = [-7i32; 2];
+    let fp = fds.as_mut_ptr() as u64;
+    r.push(|s| {
+        s[0] = OP_PIPE;
+        put64(s, 16, fp);
+        put32(s, 28, libc::O_CLOEXEC as u32);
+        put64(s, 32, 144);
+    });
+    let e = r.enter(1, 0, 0, true);
+    r.sim_complete(Out::Default);
+    let c = wait_cqes(&r, 1);
+    let fds = unsafe { std::ptr::read_volatile(&fds) };
+    t.push(format!("pipe regular -> {e} cqes: {} fds-valid={}", cq(&c), fds[0] >= 0 && fds[1] >= 0 && fds[0] != fds[1]));
+    if !k.is_sim() {
+        unsafe {
+            libc::close(fds[0]);
+            libc::close(fds[1]);
+        }
+    }
+    t
+}
+
+fn s_accept_multishot(k: &dyn Kern) -> Vec<String> {
+    use std::os::fd::AsRawFd;
+    let mut t = Vec::new();
+    let r = Raw::new(k, 4, BASE, 0).unwrap();
+    let listener = std::net::TcpListener::bind("127.0.0.1:0").unwrap();
+    let addr = listener.local_addr().unwrap();
+    let lfd = listener.as_raw_fd();
+    let accept = |ud: u64, file_index: u32| {
+        r.push(|s| {
+            s[0] = OP_ACCEPT;
+            s[2..4].copy_from_slice(&ACCEPT_MULTISHOT.to_ne_bytes());
+            put32(s, 4, lfd as u32);
+            put32(s, 44, file_index);
+            put64(s, 32, ud);
+        });
+        r.enter(1, 0, 0, true)
+    };
+    let mut clients = Vec::new();
+    t.push(format!("submit multishot accept -> {} ready={}", accept(150, 0), r.cq_ready()));
+    for i in 0..2 {
+        clients.push(std::net::TcpStream::connect(addr).unwrap());
+        r.sim_complete(Out::More(i32::MIN));
+        let c = wait_cqes(&r, 1);
+        t.push(format!("connection #{i}: cqes: {}", cq_fd(&c)));
+        if !k.is_sim() {
+            for c in &c {
+                if c.res >= 0 {
+                    unsafe { libc::close(c.res) };
+                }
+            }
+        }
+    }
+    r.push(|s| {
+        s[0] = OP_ASYNC_CANCEL;
+        put64(s, 16, 150);
+        put64(s, 32, 151);
+    });
+    let e = r.enter(1, 2, ENTER_GETEVENTS, true);
+    let mut c = wait_cqes(&r, 2);
+    c.sort_by_key(|c| c.user_data);
+    t.push(format!("cancel multishot accept -> {e} cqes (sorted): {}", cq(&c)));
+    // Direct allocation into a one-slot table: the second connection cannot be installed.
+    let reg = RsrcRegister { nr: 1, flags: RSRC_REGISTER_SPARSE, ..Default::default() };
+    assert_eq!(k.register(r.fd, REGISTER_FILES2, std::ptr::from_ref(&reg).cast(), size_of::<RsrcRegister>() as u32), 0);
+    t.push(format!("submit multishot accept direct -> {} ready={}", accept(152, FILE_INDEX_ALLOC), r.cq_ready()));
+    for i in 0..2 {
+        clients.push(std::net::TcpStream::connect(addr).unwrap());
+        r.sim_complete(Out::More(i32::MIN));
+        let c = wait_cqes(&r, 1);
+        t.push(format!("direct connection #{i}: cqes: {}", cq(&c)));
+    }
+    t.push(format!("nothing further: ready={}", r.cq_ready()));
+    t
+}
+
+fn s_multishot_enobufs(k: &dyn Kern) -> Vec<String> {
+    let mut t = Vec::new();
+    let r = Raw::new(k, 4, BASE, 0).unwrap();
+    let ring_mem = unsafe { libc::mmap(std::ptr::null_mut(), 4096, libc::PROT_READ | libc::PROT_WRITE, libc::MAP_PRIVATE | libc::MAP_ANONYMOUS, -1, 0) } as *mut u8;
+    let mut bufs = [[0u8; 4]; 1];
+    let reg = BufReg { ring_addr: ring_mem as u64, ring_entries: 1, bgid: 4, ..Default::default() };
+    assert_eq!(k.register(r.fd, REGISTER_PBUF_RING, std::ptr::from_ref(&reg).cast(), 1), 0);
+    unsafe {
+        let e = ring_mem as *mut BufRingEntry;
+        (*e).addr = bufs[0].as_mut_ptr() as u64;
+        (*e).len = 4;
+        (*e).bid = 0;
+        (*(ring_mem.add(14) as *mut std::sync::atomic::AtomicU16)).store(1, std::sync::atomic::Ordering::SeqCst);
+    }
+    let (pr, pw) = pipe();
+    r.push(|s| {
+        s[0] = OP_READ_MULTISHOT;
+        s[1] = SQE_BUFFER_SELECT;
+        put32(s, 4, pr as u32);
+        put64(s, 8, u64::MAX);
+        s[40..42].copy_from_slice(&4u16.to_ne_bytes());
+        put64(s, 32, 160);
+    });
+    t.push(format!("submit multishot read, one 4-byte buffer -> {} ready={}", r.enter(1, 0, 0, true), r.cq_ready()));
+    unsafe { libc::write(pw, b"abcdefgh".as_ptr().cast(), 8) };
+    // The first buffer takes 4 bytes; for the rest there is no buffer.
+    r.sim_complete(Out::More(4));
+    r.sim_complete(Out::More(4));
+    let c = wait_cqes(&r, 2);
+    t.push(format!("after 8 bytes: cqes: {}", cq(&c)));
+    unsafe {
+        libc::close(pr);
+        libc::close(pw);
+        libc::munmap(ring_mem.cast(), 4096);
+    }
+    let _ = &mut bufs;
+    t
+}
+
 pub fn scenarios() -> Vec<Scenario> {
     vec![
         Scenario { name: "setup-validation", run: s_setup_validation },
@@ -612,6 +859,10 @@ pub fn scenarios() -> Vec<Scenario> {
         Scenario { name: "cq-overflow", run: s_overflow },
         Scenario { name: "sync-cancel", run: s_sync_cancel },
         Scenario { name: "single-issuer", run: s_single_issuer },
+        Scenario { name: "direct-alloc", run: s_direct_alloc },
+        Scenario { name: "pipe-direct", run: s_pipe_direct },
+        Scenario { name: "accept-multishot", run: s_accept_multishot },
+        Scenario { name: "multishot-read-enobufs", run: s_multishot_enobufs },
     ]
 }
 
